@@ -1,4 +1,6 @@
 import Peppi.Props.C10
+#print axioms Peppi.Props.C10.C10_any
+#print axioms Peppi.Props.C10.C10_any_agree
 #print axioms Peppi.Props.C10.skip_gen
 #print axioms Peppi.Props.C10.readP_skip_A
 #print axioms Peppi.Props.C10.readP_skip_B
